@@ -13,11 +13,14 @@
 // observed (actions entered, packets arrived at sinks, responses at the source writer).
 //
 // (a) correspondence: the same lines are replayed by the Lean model (Uniflow.Flow over
-//     Uniflow.Node / Uniflow.Tracer) and the per-step observations are compared;
+//
+//	Uniflow.Node / Uniflow.Tracer) and the per-step observations are compared;
+//
 // (b) oracle: a specification-level reference in this file (requests form a tree; a request's
-//     answer is the join of the answers to the packets derived from it; answers leave each
-//     in-port in arrival order) predicts count, order and content of the responses at the
-//     source writer, independently of the tracer mechanics and of the Lean model.
+//
+//	answer is the join of the answers to the packets derived from it; answers leave each
+//	in-port in arrival order) predicts count, order and content of the responses at the
+//	source writer, independently of the tracer mechanics and of the Lean model.
 package c02
 
 import (
@@ -53,6 +56,18 @@ type ans struct {
 	v     val
 }
 
+// sortJoins: the current case declared `orderfree` – the elements of every join (slice elements,
+// error lines) are compared as multisets. A fork that hands ONE packet to several outputs gets the
+// answers joined in the order its writers' goroutines deliver them, which no schedule step controls.
+var sortJoins bool
+
+func sorted(parts []string) []string {
+	if sortJoins {
+		sort.Strings(parts)
+	}
+	return parts
+}
+
 func (v val) String() string {
 	switch v.kind {
 	case 'n':
@@ -64,13 +79,13 @@ func (v val) String() string {
 		for i, m := range v.ms {
 			parts[i] = strconv.Itoa(m)
 		}
-		return "e" + strings.Join(parts, ".")
+		return "e" + strings.Join(sorted(parts), ".")
 	default:
 		parts := make([]string, len(v.vs))
 		for i, x := range v.vs {
 			parts[i] = x.String()
 		}
-		return "[" + strings.Join(parts, ",") + "]"
+		return "[" + strings.Join(sorted(parts), ",") + "]"
 	}
 }
 
@@ -146,7 +161,7 @@ func canonVal(v types.Value) string {
 	case nil:
 		return "n"
 	case types.Error:
-		return "e" + strings.ReplaceAll(x.Error(), "\n", ".")
+		return "e" + strings.Join(sorted(strings.Split(x.Error(), "\n")), ".")
 	case types.Int:
 		return "a" + strconv.FormatInt(x.Int(), 10)
 	case types.Slice:
@@ -154,7 +169,7 @@ func canonVal(v types.Value) string {
 		for _, e := range x.Values() {
 			parts = append(parts, canonVal(e))
 		}
-		return "[" + strings.Join(parts, ",") + "]"
+		return "[" + strings.Join(sorted(parts), ",") + "]"
 	}
 	return fmt.Sprintf("?%T", v)
 }
@@ -400,9 +415,10 @@ func (s *sim) tryStart(n int) {
 
 // outcome of an action as the schedule dictates it
 type cmd struct {
-	kind byte   // 'o' new packet, 'i' the in packet itself, 'e' error packet, 'm' many, 'd' drop
+	kind byte   // 'o' new packet, 'i' the in packet itself, 'e' error packet, 'm' many, 'd' drop, 's' the in packet itself on outputs 0..k-1
 	v    val    // o, e
 	vs   []*val // m (nil = no packet for that port)
+	k    int    // s
 }
 
 func (s *sim) release(n int, c cmd) bool {
@@ -430,6 +446,13 @@ func (s *sim) release(n int, c cmd) bool {
 			if v != nil && i < nOut(spec) {
 				writes = append(writes, wr{i + 1, *v})
 			}
+		}
+	case 's':
+		// the same packet on several outputs: every write is a request of its own downstream (Write
+		// copies); the answers are joined in the order they come back, which is the write order when
+		// all these outputs lead to one in-port (the only shape the generator produces)
+		for i := 0; i < c.k && i < nOut(spec); i++ {
+			writes = append(writes, wr{i + 1, r.pay})
 		}
 	}
 	if len(writes) == 0 {
@@ -586,6 +609,12 @@ func buildRig(g *gspec) *rig {
 						if v != nil {
 							outs[j] = packet.New(toValue(*v))
 						}
+					}
+					return outs, nil
+				case 's':
+					outs := make([]*packet.Packet, c.k)
+					for j := range outs {
+						outs[j] = in
 					}
 					return outs, nil
 				case 'e':
@@ -785,10 +814,13 @@ type caseRun struct {
 	gotResp int
 	resps   []string
 	steps   int
+	lastPck *packet.Packet // the packet object of the latest `send` (for `resend`)
+	lastVal string
 }
 
 func newCase(c *lib.Ctx, sc *lib.Script) *caseRun {
 	sc.Begin()
+	sortJoins = false
 	return &caseRun{c: c, sc: sc, g: &gspec{}}
 }
 
@@ -819,6 +851,8 @@ func atoi(s string) (int, bool) {
 func (cr *caseRun) topo(f []string) (bool, bool) {
 	g := cr.g
 	switch {
+	case len(f) == 1 && f[0] == "orderfree" && len(g.nodes) == 0:
+		sortJoins = true
 	case len(f) == 2 && f[0] == "node" && f[1] == "o":
 		g.nodes = append(g.nodes, gnode{kind: 'o', ar: 1})
 	case len(f) == 3 && f[0] == "node" && (f[1] == "m" || f[1] == "j"):
@@ -870,6 +904,12 @@ func parseCmd(f []string) (cmd, bool) {
 		return cmd{kind: 'i'}, true
 	case len(f) == 1 && f[0] == "d":
 		return cmd{kind: 'd'}, true
+	case len(f) == 2 && f[0] == "s":
+		k, ok := atoi(f[1])
+		if !ok || k > 8 {
+			return cmd{}, false
+		}
+		return cmd{kind: 's', k: k}, true
 	case len(f) >= 1 && f[0] == "m":
 		c := cmd{kind: 'm'}
 		for _, t := range f[1:] {
@@ -922,7 +962,20 @@ func (cr *caseRun) exec(line string) bool {
 		}
 		sm.send(v)
 		cr.sent++
-		if n := rg.srcW.Write(packet.New(toValue(v))); n != 1 {
+		cr.lastPck, cr.lastVal = packet.New(toValue(v)), f[1]
+		if n := rg.srcW.Write(cr.lastPck); n != 1 {
+			cr.fail("source-write", fmt.Sprintf("source writer accepted by %d readers", n))
+		}
+	case len(f) == 2 && f[0] == "resend":
+		// the client writes the SAME packet object once more: a second, independent request
+		// (Writer.Write hands every reader a packet of its own)
+		v, ok := parseVal(f[1])
+		if !ok || cr.lastPck == nil || f[1] != cr.lastVal {
+			return false
+		}
+		sm.send(v)
+		cr.sent++
+		if n := rg.srcW.Write(cr.lastPck); n != 1 {
 			cr.fail("source-write", fmt.Sprintf("source writer accepted by %d readers", n))
 		}
 	case len(f) >= 3 && f[0] == "rel":
@@ -932,7 +985,7 @@ func (cr *caseRun) exec(line string) bool {
 			return false
 		}
 		kind := cr.g.nodes[n].kind
-		if (c.kind == 'i' && kind != 'o') || (c.kind == 'm' && kind != 'm') || (c.kind == 'o' && kind == 'm') || (c.kind == 'd' && kind == 'o') {
+		if (c.kind == 'i' && kind != 'o') || (c.kind == 'm' && kind != 'm') || (c.kind == 's' && kind != 'm') || (c.kind == 'o' && kind == 'm') || (c.kind == 'd' && kind == 'o') {
 			return false
 		}
 		if !sm.release(n, c) {
@@ -1059,8 +1112,73 @@ func (cr *caseRun) finish() {
 
 // ------------------------------------------------------------------ generators
 
+// sameFanIn: every out port of the one-to-many node n has exactly one reader and it is the same
+// in-port / sink for all of them (then answers to one packet written on all of them come back in
+// write order).
+func sameFanIn(g *gspec, n int) bool {
+	if g.nodes[n].kind != 'm' || g.nodes[n].ar < 2 {
+		return false
+	}
+	first := g.targets(n, 1)
+	if len(first) != 1 {
+		return false
+	}
+	for w := 2; w <= g.nodes[n].ar; w++ {
+		ts := g.targets(n, w)
+		if len(ts) != 1 || ts[0] != first[0] {
+			return false
+		}
+	}
+	return true
+}
+
+// genForkGraph: [one-to-one ->] fork (one-to-many) whose outputs all lead to the one in-port of a
+// transforming node -> sink; error ports to sinks of their own or unconnected.
+func genForkGraph(r *lib.RNG, c *lib.Ctx) []string {
+	lines := []string{"orderfree"}
+	fork := 0
+	if r.Chance(1, 3) {
+		lines = append(lines, "node o")
+		fork = 1
+	}
+	ar := r.Range(2, 3)
+	lines = append(lines, fmt.Sprintf("node m %d", ar))
+	nSinks := 0
+	sink := func() string { nSinks++; return fmt.Sprintf("s %d", nSinks-1) }
+	if fork == 1 {
+		lines = append(lines, "link 0 1 n 1 0")
+		if r.Chance(1, 2) {
+			lines = append(lines, "link 0 0 "+sink())
+		}
+	}
+	mid := fork + 1
+	if r.Chance(1, 4) {
+		lines = append(lines, "node j 1")
+	} else {
+		lines = append(lines, "node o")
+	}
+	for w := 1; w <= ar; w++ {
+		lines = append(lines, fmt.Sprintf("link %d %d n %d 0", fork, w, mid))
+	}
+	if r.Chance(5, 6) {
+		lines = append(lines, fmt.Sprintf("link %d 1 %s", mid, sink()))
+	}
+	if r.Chance(1, 2) {
+		lines = append(lines, fmt.Sprintf("link %d 0 %s", mid, sink()))
+	}
+	if r.Chance(1, 2) {
+		lines = append(lines, fmt.Sprintf("link %d 0 %s", fork, sink()))
+	}
+	lines = append(lines, "src 0 0")
+	c.Hit("graph-fork-into-one-input")
+	return lines
+}
+
 func genGraph(r *lib.RNG, c *lib.Ctx, maxNodes int) []string {
 	var lines []string
+	if r.Chance(1, 7) {
+		return genForkGraph(r, c)
+	}
 	nN := r.Range(1, maxNodes)
 	if r.Chance(1, 3) {
 		nN = r.Range(1, 2)
@@ -1182,6 +1300,10 @@ func genStep(r *lib.RNG, c *lib.Ctx, cr *caseRun, at *atoms, toSend int) string 
 	o := lib.Pick(r, opts)
 	switch {
 	case o == "send":
+		if cr.lastPck != nil && r.Chance(1, 4) {
+			c.Hit("source-resends-packet")
+			return "resend " + cr.lastVal
+		}
 		if r.Chance(1, 12) {
 			return "send n"
 		}
@@ -1205,6 +1327,10 @@ func genStep(r *lib.RNG, c *lib.Ctx, cr *caseRun, at *atoms, toSend int) string 
 				return o + " e " + at.err()
 			}
 		case 'm':
+			if sortJoins && sameFanIn(cr.g, n) && r.Chance(1, 2) {
+				c.Hit("action-same-on-several-outputs")
+				return fmt.Sprintf("%s s %d", o, r.Range(2, spec.ar))
+			}
 			switch {
 			case x < 70:
 				k := spec.ar
@@ -1323,12 +1449,13 @@ func account(c *lib.Ctx, cr *caseRun) {
 }
 
 func Run(c *lib.Ctx) {
-	c.Rule = "a case = a random acyclic workflow (1–6 real nodes: one-to-one, one-to-many, many-to-one; chains, fan-out, diamonds, fan-in to one input, unconnected and error outputs) + 1–4 pipelined requests + a random schedule of action releases (transform/identity/split/drop/fail) and sink answers (payload/same/None/error/nil), executed on the real nodes and on the Lean model, compared step by step (actions entered, sink arrivals, source responses); non-trivial = at least 2 requests in flight at once and ≥ 4 schedule steps, distinct by the full line list"
+	c.Rule = "a case = a random acyclic workflow (1–6 real nodes: one-to-one, one-to-many, many-to-one; chains, fan-out, diamonds, fan-in to one input, unconnected and error outputs) + 1–4 pipelined requests (the source also re-sends the packet object of its previous request) + a random schedule of action releases (transform/identity/split/drop/fail, a fork handing its in packet to all outputs leading to one input) and sink answers (payload/same/None/error/nil), executed on the real nodes and on the Lean model, compared step by step (actions entered, sink arrivals, source responses); non-trivial = at least 2 requests in flight at once and ≥ 4 schedule steps, distinct by the full line list"
 	c.Assumptions = []string{
 		"Writer/Reader honour the C01 contract on the paths used here (never closed, linked before the first write); the model of the edges in Uniflow.Flow is the fully-linked fragment only",
 		"each Tracer method is atomic (runs under Tracer.mu); the schedule interleaves whole forward iterations' Link/Write calls with backward Receive calls only at the points the harness controls (action blocked / sink holding); finer interleavings are covered by the theorem, not by the runs",
 		"no single schedule step delivers packets to two different in-ports of one many-to-one node (their grouping order would be a real race between two forward goroutines); the generator excludes such topologies",
-		"actions return fresh packets (or the in packet itself for one-to-one); a one-to-one action never returns (nil, nil) (the Go code dereferences nil there)",
+		"actions return fresh packets, or the in packet itself (one-to-one; one-to-many on several outputs only when all its outputs lead to one and the same in-port, and such a case compares the elements of every join as multisets (`orderfree`) – the tracer joins the answers to one packet written several times in arrival order, and the order in which the backward goroutines of two writers hand their answers to the tracer is not controlled by any schedule step); a one-to-one action never returns (nil, nil) (the Go code dereferences nil there)",
+		"the source may write the packet object of its previous request once more (`resend`): Writer.Write hands every reader a packet of its own, so this is an independent request",
 	}
 	c.Trusted = []string{"node.VerifTracer / Tracer.VerifLen accessors (verif tag)", "the specification-level reference simulator in harness/c02 used as oracle and to know how many events to wait for"}
 	// lib.NewRNG(seed) is a splitmix64 whose state advances by a constant: the streams of seeds k and
